@@ -3,7 +3,11 @@
 //! jitter, byte/frame exact cuts), driven by scenario lines under a paused virtual clock.
 //!
 //! stdin, one case per line:
-//!   net seed=<u64> chunk=<n> jitter=<0|1|2> | <op> ; <op> ; ...
+//!   net seed=<u64> chunk=<n> jitter=<0|1|2> [tcp=1] | <op> ; <op> ; ...
+//!     tcp=1: the two nodes are connected through node B's REAL TCP listener on 127.0.0.1 and
+//!     `ractor_cluster::client_connect` (real-time runtime; `settle` then waits — bounded, else exit 2 —
+//!     for the logical condition "everything accepted has arrived, expected replies are in, both
+//!     sessions mirror the live actors and groups"); no cut ops in this mode
 //! ops:
 //!   spawn <i> | connect | join <i> <g> | leave <i> <g> | exit <i> | kill <i>
 //!   cast <sender> <via> <i> <variant 0|1> <bloblen>
@@ -545,6 +549,7 @@ struct CallRec {
     caller: u64,
     slot: Arc<Mutex<Outcome>>,
     handle: Option<tokio::task::JoinHandle<()>>,
+    answers: bool, // the probe answers this call (mode 0 / 1)
 }
 
 struct World {
@@ -557,6 +562,10 @@ struct World {
     events: Events,
     sess: Option<[NodeServerSessionInformation; 2]>,
     connect_done: bool,
+    tcp: bool,
+    tcp_gave_up: bool,
+    port_b: u16,
+    ok_sends: usize,
     link: Option<Arc<Mutex<Link>>>,
     probes: BTreeMap<u64, ProbeInfo>,
     handles: BTreeMap<(u64, u64), ActorCell>,
@@ -668,12 +677,20 @@ impl World {
         // --- the real connection
         let (sa, sb) = tokio::io::duplex(64 * 1024);
         let link = Arc::new(Mutex::new(Link::new(self.chunk, self.jitter, self.seed)));
-        let ca = Chaos { stream: sa, link: link.clone(), wdir: 0, label: "a".into() };
-        let cb = Chaos { stream: sb, link: link.clone(), wdir: 1, label: "b".into() };
-        if self.nodes[0].cast(NodeServerMessage::ConnectionOpenedExternal { stream: Box::new(ca), is_server: false }).is_err()
-            || self.nodes[1].cast(NodeServerMessage::ConnectionOpenedExternal { stream: Box::new(cb), is_server: true }).is_err()
-        {
-            infra("node server rejected the real connection");
+        if self.tcp {
+            // node A dials node B's real listener
+            if let Err(e) = ractor_cluster::client_connect(&self.nodes[0], format!("127.0.0.1:{}", self.port_b)).await {
+                infra(format!("tcp connect to 127.0.0.1:{} failed: {e}", self.port_b));
+            }
+        } else {
+            let ca = Chaos { stream: sa, link: link.clone(), wdir: 0, label: "a".into() };
+            let cb = Chaos { stream: sb, link: link.clone(), wdir: 1, label: "b".into() };
+            // the dialling side goes through the public helper for external transports
+            if ractor_cluster::client_connect_external(&self.nodes[0], Box::new(ca)).await.is_err()
+                || self.nodes[1].cast(NodeServerMessage::ConnectionOpenedExternal { stream: Box::new(cb), is_server: true }).is_err()
+            {
+                infra("node server rejected the real connection");
+            }
         }
         // The transport delivers every byte, uncut and in order. If the sessions nevertheless tear
         // down or never become ready (a broken frame reader / handshake), that is an OBSERVATION about
@@ -754,7 +771,76 @@ impl World {
                 r.cast(m).is_ok()
             }
         };
+        if ok {
+            self.ok_sends += 1;
+        }
         self.sent.push(format!("(mkS {via} {i} {sender} {seq} {variant} {len} {hash} {})", coq_bool(ok)));
+    }
+
+    /// tcp mode: wait (real time, bounded) until nothing is on its way any more, judged logically
+    async fn settle_logical(&mut self) {
+        // Real time is only used to notice that NOTHING changes any more: the wait goes on as long as
+        // there is progress (bounded by 120 s overall => infrastructure failure); if the observable state
+        // has been frozen for 10 s and the condition still does not hold, that is an observation (the
+        // snapshot will show it) and later waits no longer insist on the part that cannot be reached.
+        let deadline = std::time::Instant::now() + Duration::from_secs(120);
+        let mut last_fp = String::new();
+        let mut frozen_since = std::time::Instant::now();
+        loop {
+            let arrived = self.log.lock().unwrap().len() >= self.ok_sends;
+            let answered = self.calls.iter().all(|c| !c.answers || c.slot.lock().unwrap().out != 0);
+            let mut live: Vec<u64> = self.probes.values().filter(|p| alive(&p.cell)).map(|p| p.pid).collect();
+            live.sort();
+            let mut mirrored = self.sess.is_some();
+            for via in 0..2u64 {
+                let mut px: Vec<u64> = self.session_cells(via).iter().filter(|c| alive(c)).map(|c| c.get_id().pid()).collect();
+                px.sort();
+                mirrored &= px == live;
+            }
+            for g in self.groups.clone() {
+                let ms = self.members(g);
+                let mut loc: Vec<u64> = ms.iter().filter(|m| m.get_id().is_local()).map(|m| m.get_id().pid()).collect();
+                loc.sort();
+                for node in 0..2u64 {
+                    let mut rem: Vec<u64> = ms
+                        .iter()
+                        .filter_map(|m| match m.get_id() {
+                            ActorId::Remote { node_id, pid } if node_id == node => Some(pid),
+                            _ => None,
+                        })
+                        .collect();
+                    rem.sort();
+                    mirrored &= rem == loc;
+                }
+            }
+            let want_mirror = !self.tcp_gave_up && self.sess.is_some();
+            if arrived && answered && (mirrored || !want_mirror) {
+                return;
+            }
+            let fp = format!(
+                "{}|{}|{:?}|{}",
+                self.log.lock().unwrap().len(),
+                self.calls.iter().filter(|c| c.slot.lock().unwrap().out != 0).count(),
+                (0..2u64).map(|v| self.session_cells(v).len()).collect::<Vec<_>>(),
+                self.groups.iter().map(|g| self.members(*g).len()).sum::<usize>()
+            );
+            if fp != last_fp {
+                last_fp = fp;
+                frozen_since = std::time::Instant::now();
+            } else if frozen_since.elapsed() >= Duration::from_secs(10) {
+                if debug() {
+                    eprintln!("  tcp settle: frozen (arrived={arrived} answered={answered} mirrored={mirrored})");
+                }
+                self.tcp_gave_up = true;
+                return;
+            }
+            if std::time::Instant::now() >= deadline {
+                infra(format!(
+                    "tcp mode: still changing after 120 s (arrived={arrived} answered={answered} mirrored={mirrored})"
+                ));
+            }
+            tokio::time::sleep(Duration::from_millis(5)).await;
+        }
     }
 
     async fn do_call(&mut self, caller: u64, via: u64, i: u64, mode: u64, delay: u64, timeout_ms: u64, len: usize) {
@@ -789,7 +875,10 @@ impl World {
             }
         }
         self.sent.push(format!("(mkS {via} {i} {caller} {seq} 2 {len} {hash} {})", coq_bool(ok)));
-        self.calls.push(CallRec { rid, via, i, caller, slot, handle });
+        if ok {
+            self.ok_sends += 1;
+        }
+        self.calls.push(CallRec { rid, via, i, caller, slot, handle, answers: ok && mode <= 1 });
     }
 
     fn members(&self, g: u64) -> Vec<ActorCell> {
@@ -950,12 +1039,18 @@ impl World {
             }
             "settle" => {
                 need(1);
-                tokio::time::sleep(Duration::from_millis(20)).await
+                if self.tcp {
+                    self.settle_logical().await
+                } else {
+                    tokio::time::sleep(Duration::from_millis(20)).await
+                }
             }
             "advance" => {
                 need(2);
-                tokio::time::sleep(Duration::from_millis(u(w[1]))).await
+                let ms = if self.tcp { u(w[1]).min(30) } else { u(w[1]) };
+                tokio::time::sleep(Duration::from_millis(ms)).await
             }
+            "cut" if self.tcp => infra("cut is not available in tcp mode"),
             "cut" => {
                 let link = self.link.clone().unwrap_or_else(|| infra("cut before connect"));
                 let mut l = link.lock().unwrap();
@@ -1001,12 +1096,14 @@ async fn run_case(case: u64, line: String) -> String {
         infra(format!("unknown case kind in {line:?}"));
     }
     let (mut seed, mut chunk, mut jitter) = (0u64, 0usize, 0u8);
+    let mut tcp = false;
     for kv in &hw[1..] {
         let (k, v) = kv.split_once('=').unwrap_or_else(|| infra(format!("bad header item {kv:?}")));
         match k {
             "seed" => seed = u(v),
             "chunk" => chunk = u(v) as usize,
             "jitter" => jitter = u(v) as u8,
+            "tcp" => tcp = u(v) == 1,
             _ => infra(format!("unknown header key {k:?}")),
         }
     }
@@ -1015,8 +1112,21 @@ async fn run_case(case: u64, line: String) -> String {
     let events: Events = Arc::new(Mutex::new(Vec::new()));
     let mut nodes = Vec::new();
     let mut node_handles = Vec::new();
+    // tcp mode: a free loopback port for node B's listener
+    let port_b: u16 = if tcp {
+        match std::net::TcpListener::bind("127.0.0.1:0").and_then(|l| l.local_addr()) {
+            Ok(a) => a.port(),
+            Err(e) => infra(format!("no free loopback port: {e}")),
+        }
+    } else {
+        0
+    };
     for (n, name) in ["a", "b"].iter().enumerate() {
-        let server = NodeServer::new(0, "cookie".into(), name.to_string(), "host".into(), None, None);
+        let mut server =
+            NodeServer::new(if n == 1 { port_b } else { 0 }, "cookie".into(), name.to_string(), "host".into(), None, None);
+        if tcp {
+            server = server.with_listen_addr(std::net::IpAddr::V4(std::net::Ipv4Addr::LOCALHOST));
+        }
         let (r, h) = match Actor::spawn(None, server, ()).await {
             Ok(x) => x,
             Err(e) => infra(format!("node server {name} failed to start: {e}")),
@@ -1048,6 +1158,10 @@ async fn run_case(case: u64, line: String) -> String {
         handles: BTreeMap::new(),
         seqs: HashMap::new(),
         connect_done: false,
+        tcp,
+        tcp_gave_up: false,
+        port_b,
+        ok_sends: 0,
         groups: BTreeSet::new(),
         log: Arc::new(Mutex::new(Vec::new())),
         sent: Vec::new(),
@@ -1156,7 +1270,7 @@ fn main() {
         let t0 = std::time::Instant::now();
         let rt = tokio::runtime::Builder::new_current_thread()
             .enable_all()
-            .start_paused(true)
+            .start_paused(!line.contains(" tcp=1"))
             .build()
             .unwrap_or_else(|e| infra(format!("runtime: {e}")));
         let res = std::panic::catch_unwind(std::panic::AssertUnwindSafe(|| rt.block_on(run_case(case as u64, line.clone()))));
